@@ -201,7 +201,7 @@ func Run(ctx *common.Ctx) {
 	if ctx.Thorough() {
 		nrand = 3000000
 	}
-	rg := []job{{Kind: "read-sweep", Src: "short", Deadline: 300}, {Kind: "read-sweep", Src: "triples", Deadline: 300}}
+	rg := []job{{Kind: "read-sweep", Src: "short", Deadline: 300}, {Kind: "read-sweep", Src: "triples", Deadline: 300}, {Kind: "read-sweep", Src: "quads", Deadline: 600}}
 	for i := 0; i < 12; i++ {
 		rg = append(rg, job{Kind: "read-sweep", Src: "random", Seed: ctx.Seed*1000 + uint64(i), Count: nrand / 12, Deadline: 600})
 	}
@@ -396,7 +396,7 @@ func Run(ctx *common.Ctx) {
 	ctx.WriteShards("cases", header, "case", footer, terms, descs, 16)
 	ctx.Meta.Evaluations = total
 	ctx.Meta.DistinctNontrivial = total
-	ctx.Meta.Rule = fmt.Sprintf("every function of the packages cl, gi, bag, clos, flavors, generic, ... (%d swept, deny-list for those that exit, sleep, block on input or touch files/network) applied to the empty tuple, every 1-tuple of a %d-object pool, all %d 2-tuples and seeded 3..5-tuples, each function in a process of its own with a 4 s deadline and a memory limit; format control strings over the directive alphabet with prefix parameters (numbers, 'c, v, #), modifiers and 0..4 arguments; the reader on every byte string of length 1 and 2, every length-3 string over its syntax bytes and random strings. Outcome classes: value / Lisp condition / host fault (runtime error, interface conversion, unhashable key, non-Lisp panic) / hang / process death; every fault is re-run alone in a fresh process before it counts", len(fns), len(pool), len(pool)*len(pool))
+	ctx.Meta.Rule = fmt.Sprintf("every function of the packages cl, gi, bag, clos, flavors, generic, ... (%d swept, deny-list for those that exit, sleep, block on input or touch files/network) applied to the empty tuple, every 1-tuple of a %d-object pool, all %d 2-tuples and seeded 3..5-tuples, each function in a process of its own with a 4 s deadline and a memory limit; format control strings over the directive alphabet with prefix parameters (numbers, 'c, v, #), modifiers and 0..4 arguments; the reader on every byte string of length 1 and 2, every length-3 string over its syntax bytes, every length-4 string over 24 core syntax bytes and random strings. Outcome classes: value / Lisp condition / host fault (runtime error, interface conversion, unhashable key, non-Lisp panic) / hang / process death; every fault is re-run alone in a fresh process before it counts", len(fns), len(pool), len(pool)*len(pool))
 }
 
 func outcomeKind(r result) string {
